@@ -40,6 +40,7 @@ type dtr struct {
 	resultTypes []types.Type
 	calls map[string]bool // functions called by the one being translated
 	curFunc string
+	curDecl *ast.FuncDecl
 	nOracle int // map iterations of the function being translated (one order oracle each)
 	curKey  string // enum mode: <method>_<receiver type>
 	mode    string // "drv" (package vedirect) or "api" (package vedirectapi)
@@ -154,6 +155,8 @@ func (t *dtr) zero(ty types.Type) string {
 		return "(@None devcfg)"
 	case "(option unit)":
 		return "(@None unit)"
+	case "regvalues":
+		return "(mkRV [] [] [] [])" // four nil maps: read like empty ones; the collectors may only write to made ones (checked at the call)
 	}
 	return ""
 }
@@ -482,6 +485,32 @@ func (t *dtr) ex(e ast.Expr) (pre []bnd, term string) {
 				}
 			}
 			return nil, "(mkApi 0 empty_reglist)"
+		}
+		if t.mode == "api" && typeName(tv.Type) == "vedirectapi.RegisterValues" {
+			// RegisterValues{NumberValues: make(map[string]NumberRegisterValue, n), ...}: four fresh, empty maps
+			want := map[string]string{"NumberValues": "map[string]vedirectapi.NumberRegisterValue", "TextValues": "map[string]vedirectapi.TextRegisterValue",
+				"EnumValues": "map[string]vedirectapi.EnumRegisterValue", "FieldListValues": "map[string]vedirectapi.FieldListValue"}
+			seen := map[string]bool{}
+			for _, el := range x.Elts {
+				kv, ok := el.(*ast.KeyValueExpr)
+				if !ok {
+					t.bad(e, "RegisterValues literal")
+				}
+				k := types.ExprString(kv.Key)
+				mk, ok := kv.Value.(*ast.CallExpr)
+				if !ok || types.ExprString(mk.Fun) != "make" || len(mk.Args) < 1 || len(mk.Args) > 2 || want[k] == "" || seen[k] ||
+					strings.ReplaceAll(t.info.Types[mk.Args[0]].Type.String(), "github.com/koestler/go-victron/", "") != want[k] {
+					t.bad(e, "RegisterValues literal: field %s is not a fresh map", k)
+				}
+				if len(mk.Args) == 2 && !t.effectFree(mk.Args[1]) {
+					t.bad(e, "RegisterValues literal: capacity with an effect")
+				}
+				seen[k] = true
+			}
+			if len(seen) != 4 {
+				t.bad(e, "RegisterValues literal: %d of 4 maps", len(seen))
+			}
+			return nil, "(mkRV [] [] [] [])"
 		}
 		if !isByteSlice(tv.Type) {
 			t.bad(e, "composite literal of type %s", tv.Type)
@@ -1929,6 +1958,7 @@ func (t *dtr) rangeStmt(x *ast.RangeStmt, rest []ast.Stmt, c *dctx) string {
 
 func (t *dtr) function(fd *ast.FuncDecl) string {
 	t.curFunc = fd.Name.Name
+	t.curDecl = fd
 	t.nOracle = 0
 	t.fresh = 0
 	t.names = map[types.Object]string{}
@@ -2119,7 +2149,7 @@ func translateDrv(repo, outPath string) {
 
 func translateApi(repo, outPath string) {
 	translatePkg(repo, outPath, "api", "vedirectapi",
-		[]string{"ReadNumberRegister", "ReadTextRegister", "ReadEnumRegister", "ReadFieldListRegister", "StreamRegisterList", "NewRegisterApi", "CommaString", "GetList"},
+		[]string{"ReadNumberRegister", "ReadTextRegister", "ReadEnumRegister", "ReadFieldListRegister", "StreamRegisterList", "ReadRegisterList", "NewRegisterApi", "CommaString", "GetList"},
 		"From Coq Require Import QArith.\nFrom GV Require Import Vedirect.DrvSem Gen.DrvImpl Api.ApiSem.\nImport ListNotations.\nLocal Open Scope Z_scope.\n\n",
 		"GoLite-D -> Gallina translation of the register readers and the streaming loop (tie T-gen).")
 }
